@@ -627,7 +627,9 @@ DESCRIPTIONS = (None, 'plain', '<b>&amp;</b>"\'', 'é\U0001F600', '\t\n]]><![CDA
 CODES = (None, 0, 77)
 HREFS = ((None, None), ('http://example.com/a?b=1&c=2#f', None), ('http://ex.com/é \U0001F600/"<>', 'Tëxt <&>'))
 STATUS_FORMS = (400, '499 Custom Reason', http.HTTPStatus.CONFLICT, '404')
-HEADER_FORMS = (None, {'X-Err': 'v1'}, [('X-Err', 'v2'), ('Vary', 'Cookie')], {'Content-Type': 'text/plain', 'X-Err': 'v3'})
+HEADER_FORMS = (None, {'X-Err': 'v1'}, [('X-Err', 'v2'), ('Vary', 'Cookie')], {'Content-Type': 'text/plain', 'X-Err': 'v3'},
+                # a Vary token that merely CONTAINS the word accept: 'Accept' itself must still be listed
+                {'Vary': 'Accept-Encoding'})
 ACCEPTS = (None, 'application/json', 'application/xml', 'text/xml', '*/*', 'text/*', 'application/*',
            'multipart/form-data',
            'application/xml;q=0.5, application/json;q=0.4', 'application/json;q=0.5, application/xml;q=0.9',
